@@ -133,11 +133,12 @@ class _Const(object):
 class Hole(object):
     """A formatted value inside a string ("{e}".format(e=v) / str(v))."""
 
-    def __init__(self, value):
+    def __init__(self, value, plain=False):
         self.value = value
+        self.plain = plain        # rendered by the repository's formatNumber (never exponent notation)
 
     def __repr__(self):
-        return "{%s}" % (self.value,)
+        return "{%s%s}" % ("plain:" if self.plain else "", self.value)
 
 
 class SStr(object):
